@@ -317,8 +317,17 @@ def run_edit(case):
     norm = lambda e: re.sub(r'\s+', '', e)
     if [norm(e) for e in new.equations] != [norm(e) for e in exp]:
         return viol('equations_differ', got=list(new.equations), expected=exp, edit=case['edit'])
-    if base.equations != [case['eq']]:
-        return viol('base_template_changed', got=list(base.equations))
+    if base.equations != [case['eq']] or base.variables != variables:
+        return viol('base_template_changed', got=list(base.equations),
+                    variables_lost=sorted(set(variables) - set(base.variables)))
+    # the same edit dictionary used a second time derives the same operator
+    try:
+        again = base.update_template(name='derived', equations=ed)
+    except Exception as e:
+        sig['exc'] = type(e).__name__
+        return viol('raises', detail=f'second use of the edit dictionary: {type(e).__name__}: {e}'[:200])
+    if list(again.equations) != list(new.equations) or again.variables != new.variables:
+        return viol('edit_dictionary_consumed', first=list(new.equations), second=list(again.equations))
     # and the derived operator computes the expected right-hand side
     from ..refsem import evaluate
     env = dict(vals, zz=0.77, k2=1.9, q=0.3, p=0.2)
